@@ -175,6 +175,20 @@ func (h *simpleSQLiteHandler) serveBulkInsert(ctx context.Context) {
 	for {
 		select {
 		case <-ctx.Done():
+			// Events still waiting in the queue have been acknowledged with OK as well.
+		drain:
+			for {
+				select {
+				case event := <-h.eventCh:
+					if _, ok := seen.Get(event.ID); ok {
+						continue
+					}
+					seen.Add(event.ID, struct{}{})
+					events = append(events, event)
+				default:
+					break drain
+				}
+			}
 			if len(events) > 0 {
 				c, cancel := context.WithTimeout(context.Background(), 3*time.Second)
 				defer cancel()
